@@ -1,7 +1,71 @@
----- MODULE GenA ----
-EXTENDS Assignment, Json, TLC
-VARIABLES W, done
-Init == W \in [1..3 -> [1..3 -> {0, 2, 4, 6}]] /\ done = FALSE
-Next == done = FALSE /\ done' = TRUE /\ UNCHANGED W
-Emit == done => PrintT(<<"REPLAY", ToJson([kind |-> "asg", w |-> W, opt |-> Best(W, 1..3, 1..3, 3)])>>)
-====
+-------------------------------- MODULE GenA --------------------------------
+(* Generation instance for the Hungarian engine (SortVoting; property C17 and the   *)
+(* engine half of C02): one JSON line per weight matrix.                             *)
+(*   kind "asg"  : [w, thr, sc, opt, val, gs]   opt = Assignment!Best(W): EVERY        *)
+(*                 optimal gated one-to-one assignment (row -> column, 0 = the row     *)
+(*                 keeps its own column = starts a new track), val = its value          *)
+(*   kind "asgv" : [w, thr, sc, val, gs]        val = optimum by DP!BestValue (8 x 8)    *)
+(* w[r][c] = 0: no pair; real weight = w / sc, real threshold = thr / sc (exact in f32  *)
+(* and after the engine's scaling by 1e6).  gs = 1 iff row-by-row greedy choice is      *)
+(* worse than the optimum (the case separates optimal from greedy).                     *)
+(* Mode "enum": every NR x NC matrix over the grid (two-stage Next: first row, rest).   *)
+(* Mode "sim" : random NR x NC matrices over 0..63 built cell by cell by `tlc -simulate`.*)
+EXTENDS Assignment, Json, TLC, Integers
+D == INSTANCE DP
+CONSTANTS Mode,    \* "enum" | "sim"
+          NR, NC,  \* rows (queries / detections), columns (tracks)
+          GridName,\* "coarse" | "full" | "tie"
+          CheckDP  \* TRUE: also assert DP!BestValue = the value of Best (cross-check of the DP used for 8 x 8)
+VARIABLES stage, c
+vars == <<stage, c>>
+Rows == 1..NR
+Cols == 1..NC
+Grid == IF GridName = "coarse" THEN {0, 2, 4} ELSE IF GridName = "full" THEN {0, 2, 4, 6} ELSE {0, 2, 3, 4, 6}
+Thr == 3      \* straddled by the grid; "tie" contains the threshold itself
+RECURSIVE GreedyVal(_, _, _, _)
+GreedyVal(W, thr, r, used) ==        \* rows in order, each takes its heaviest free gated column
+  IF r > NR THEN 0
+  ELSE LET av == {x \in Cols \ used : W[r][x] > 0 /\ W[r][x] >= thr} IN
+       IF av = {} THEN thr + GreedyVal(W, thr, r + 1, used)
+       ELSE LET x == CHOOSE a \in av : \A y \in av : W[r][y] <= W[r][a] IN W[r][x] + GreedyVal(W, thr, r + 1, used \cup {x})
+Case(W) ==
+  LET opt == Best(W, Rows, Cols, Thr)
+      v == Value(W, Rows, CHOOSE a \in opt : TRUE, Thr)
+  IN [kind |-> "asg", w |-> W, thr |-> Thr, sc |-> 16, opt |-> opt, val |-> v,
+      gs |-> IF GreedyVal(W, Thr, 1, {}) < v THEN 1 ELSE 0]
+(* the specification's own facts: no optimum uses a pair below the threshold; the DP optimum agrees with Best *)
+Facts(W, cs) == /\ \A a \in cs.opt : \A r \in Rows : a[r] # 0 => W[r][a[r]] >= Thr          \* Assignment!GateRespected
+                /\ CheckDP => D!BestValue(W, NR, Cols, Thr) = cs.val
+                /\ \A a \in cs.opt : \A r1, r2 \in Rows : (r1 # r2 /\ a[r1] # 0) => a[r1] # a[r2]
+
+Init == stage = 0 /\ c = [kind |-> "init"]
+EnumNext ==
+  \/ /\ stage = 0 /\ stage' = 1 /\ \E row \in [Cols -> Grid] : c' = [row |-> row]
+  \/ /\ stage = 1 /\ stage' = 2
+     /\ \E rest \in [2..NR -> [Cols -> Grid]] :
+          LET W == [r \in Rows |-> IF r = 1 THEN c.row ELSE rest[r]]
+              cs == Case(W) IN
+          /\ Assert(Facts(W, cs), <<"C02a/C17 violated by the specification", W>>)
+          /\ c' = cs
+SimThrs == {10, 20, 32, 45}
+SimNext ==
+  \/ /\ stage = 0 /\ stage' = 1
+     /\ \E thr \in SimThrs : c' = [thr |-> thr, w |-> [r \in Rows |-> [x \in Cols |-> 0]], k |-> 0, ph |-> 0]
+  \/ /\ stage = 1 /\ c.k < NR * NC /\ c.ph = 0 /\ stage' = 1
+     /\ \E v \in 0..63, keep \in 0..3 :      \* one cell in four stays absent
+          LET r == (c.k \div NC) + 1
+              x == (c.k % NC) + 1 IN
+          c' = [c EXCEPT !.w[r][x] = IF keep = 0 THEN 0 ELSE v, !.k = @ + 1, !.ph = IF c.k + 1 = NR * NC THEN 1 ELSE 0]
+  \/ /\ stage = 1 /\ c.ph = 1 /\ stage' = 2 /\ UNCHANGED c
+Next == IF Mode = "enum" THEN EnumNext ELSE SimNext
+Spec == Init /\ [][Next]_vars
+SimCase == LET v == D!BestValue(c.w, NR, Cols, c.thr) IN
+           [kind |-> "asgv", w |-> c.w, thr |-> c.thr, sc |-> 64, val |-> v,
+            gs |-> IF GreedyVal(c.w, c.thr, 1, {}) < v THEN 1 ELSE 0]
+Emit == IF Mode = "enum" THEN stage = 2 => PrintT(<<"REPLAY", ToJson(c)>>)
+        ELSE stage = 2 => PrintT(<<"REPLAY", ToJson(SimCase)>>)
+(* reachability witnesses (TLC must violate them) *)
+W_GreedyAlwaysOptimal == stage = 2 => c.gs = 0
+W_OptimumAlwaysUnique == stage = 2 => Cardinality(c.opt) = 1
+W_NeverUnmatchedByGate == stage = 2 => \A a \in c.opt : \A r \in Rows : (\E x \in Cols : c.w[r][x] > 0) => a[r] # 0
+=============================================================================
